@@ -29,6 +29,8 @@ LAYOUTS = [
     ("hash_comments", {"stmt_gap": " # c\n"}),
     ("c_comments", {"default_gap": " /* c */ "}),
     ("lower", {"kwcase": "lower"}),
+    ("formfeed", {"default_gap": " \f "}),
+    ("formfeed_lines", {"stmt_gap": " \f\n"}),
 ]
 GAP_KINDS = [" ", "\t", "\n", "\r\n", "  \f ", " # c\n", " /* c */ ", "\n\n   "]
 
@@ -52,7 +54,7 @@ def mk_style(tree, kw):
 
 def units(tier):
     us = [("FAULTS", i) for i in range(len(fault_docs()))]
-    us += [("MULTILINE",)]
+    us += [("MULTILINE",), ("ROOTLIST",)]
     us += S.doc_units(["S1", "S1n", "S4", "ROOT"] + (["S2"] if tier == "thorough" else []), tier)
     if tier == "thorough":
         us += [("DEV", t) for t in V.object_types()]
@@ -337,6 +339,53 @@ def run_faults(res, idx):
     R.add_sample(res, {"document": label, "objects": len(blocks)}, 1)
 
 
+def run_rootlist(res):
+    """several root blocks in one text, validated in ONE validate(list) call: every message must carry the position inside its own root"""
+    for t in V.object_types():
+        faults = text_faults(t)
+        for kind, item, on_key in faults:
+            for nroots in (2, 3):
+                roots = []
+                for i in range(nroots):
+                    b = S.min_block(t, 1 + (i % 2))
+                    same = [j for j, it in enumerate(b.items) if it[0] == "kw" and it[1] == item[1]]
+                    if same:
+                        b.items[same[0]] = item
+                    else:
+                        b.items.insert(min(i, len(b.items)), item)
+                    roots.append(b)
+                for lname, lkw in LAYOUTS[:3]:
+                    text, toks = D.render(roots, mk_style(roots, lkw))
+                    try:
+                        d = impl.loads(text, include_position=True)
+                        msgs = impl.validate(d, schema_name=t)
+                    except Exception:
+                        R.add_outcome(res, "exc(judged by C07/C02)")
+                        continue
+                    res["evals"] += 1
+                    want = set()
+                    for bi, b in enumerate(roots):
+                        ref = (("root", bi),)
+                        if on_key:
+                            idx = [j for j, it in enumerate(b.items) if it is item][0]
+                            kt = [x for x in toks if x.ref == ref + (idx,) and x.role == "key"][0]
+                            want.add((item[1].upper(), kt.line, kt.col))
+                        else:
+                            ot = [x for x in toks if x.ref == ref and x.role == "opener"][0]
+                            want.add((t.upper(), ot.line, ot.col))
+                    got = {(m["message"].rsplit(" ", 1)[1], m.get("line"), m.get("column")) for m in msgs}
+                    # other (pre-existing) messages, e.g. a missing required keyword, are object-level messages at the openers
+                    got_rel = {g for g in got if g[0] == (item[1].upper() if on_key else t.upper())}
+                    if want <= got and (not on_key or got_rel == want):
+                        R.add_outcome(res, "located")
+                        res["states"].add(R.h64(text))
+                    else:
+                        R.add_outcome(res, "mislocated")
+                        R.add_violation(res, "rootlist|%s in %s x%d" % (kind, t, nroots), "validate(list of roots): message locations %s, offending tokens at %s" % (
+                            sorted(got, key=repr), sorted(want)), {"text": text, "root": t, "want": sorted(want), "subset": True}, {"layout": lname})
+    R.add_sub(res, "root lists x faults x layouts (one validate call for all roots)", res["evals"])
+
+
 def tree_how(tree, bpath):
     b = tree
     how = "root"
@@ -418,6 +467,9 @@ def run_unit(unit):
     if unit[0] == "MULTILINE":
         run_multiline(res)
         return res
+    if unit[0] == "ROOTLIST":
+        run_rootlist(res)
+        return res
     if unit[0] == "DEV":
         run_dev(res, unit[1])
         return res
@@ -452,5 +504,7 @@ def replay(case):
 
         msgs = Validator().validate(d, schema_name=case["root"])
         got = sorted([m["message"].rsplit(" ", 1)[1], m.get("line"), m.get("column")] for m in msgs)
+        if case.get("subset"):
+            return None if all(list(w) in got for w in case["want"]) else {"got": got, "want": case["want"]}
         return {"got": got, "want": case["want"]} if got != [list(w) for w in case["want"]] else None
     return None
